@@ -228,9 +228,11 @@ func c03Gen(r *Rng, tier string, i int) Sx {
 	var reqs []Sx
 	var sched []Sx
 	if r.Chance(1, 5) { // a recovered panic first, then overlapping requests
-		hs = append(hs, L(I(190), L(L(A("yield")), ev(1900), L(A("panic"), I(190)))))
+		hs = append(hs, L(I(190), L(L(A("yield")), ev(1900), L(A("sd"), S("k"), I(7)), L(A("ae"), I(3)), L(A("abort")), L(A("panic"), I(190)))))
 		stmts = append(stmts, L(A("route"), SL([]string{"GET"}), S("/boom"), I(190), L(), L(), S("")))
-		opts = append(opts, L(A("onpanic"), L(ev(7777), L(A("w"), L(A("st"), I(500))), wwr("rec"))))
+		if r.Bool() { // with a hook the panic is contained; without one it escapes ServeHTTP - either way later requests are unaffected
+			opts = append(opts, L(A("onpanic"), L(ev(7777), L(A("w"), L(A("st"), I(500))), wwr("rec"))))
+		}
 		nreq = 3
 		reqs = append(reqs, L(S("GET"), S("/boom")))
 		for k := 0; k < 12; k++ {
